@@ -124,4 +124,15 @@ PROPS = {
              'distinct = hash of the rendered pool; every case is non-trivial.',
         exhaustive=dict(quick=False, thorough=False),
         assumptions=['laws + reference comparator in harness/c16.cpp']),
+    'C15': dict(
+        level_text='Runtime monitoring against a reference state machine: random histories (0..60 operations) of record(address, old, new) over 2..5 addresses and value types i/f/c, seek(+-k) incl. far beyond both ends, and clock advances of 0..3 s (virtual clock: the harness defines time()) are applied to the real UndoHistory and to the model in lock-step; after every operation getPos(), size() and the exact byte sequence of messages delivered to the callback are compared; record-heavy histories cross the 20-event cap, merges into non-newest entries are counted. End-to-end stage: the events come from the library\'s own parameter ports (rParamI, rParam, rOption, rArrayI, rParamF) via /undo_change replies, undo/redo messages are dispatched back into the ports, and undo-all / redo-all must reach the initial / final snapshot of the runtime object.',
+        level_note='Trusts the reference model in harness/c15.cpp: merge = newest-first search for an entry with the same address whose (refreshed) time stamp is at most 2 s old. time() is replaced at link time (static link of the library objects).',
+        technique='reference state-machine monitor in lock-step, virtual clock, AddressSanitizer/UBSan',
+        stages=[dict(harness='c15', variant='asan', mode='model', quick=20000, thorough=1000000,
+                     need=['ops.record', 'ops.seek_undo_effective', 'ops.seek_redo_effective', 'model.merged', 'model.merged_into_non_newest', 'model.cap_dropped', 'state.at_cap']),
+                dict(harness='c15', variant='asan', mode='e2e', quick=5000, thorough=200000,
+                     need=['e2e.sets', 'e2e.undo_all_checked', 'e2e.redo_all_checked'])],
+        rule='case = one operation history; distinct = hash of the rendered history; every history with >=1 operation is non-trivial.',
+        exhaustive=dict(quick=False, thorough=False),
+        assumptions=['reference undo model harness/c15.cpp']),
 }
